@@ -898,4 +898,57 @@ theorem first_sim_open_before_head_hoisted (fileSw : Int → Bool) (prPunch : Bo
     · exact ⟨s.defs.filter (fun d => fileSw d && !s.att d), s.defs, by simp [ht, tidyPunch, filter_const_false, filter_const_true]⟩
   · exact ⟨[], s.defs, by simp [hp, tidyPunch, filter_const_true]⟩
 
+
+/-! ## calls without a loaded database, failed database loads -/
+
+/-- a `Run*` call without a database treats the files and strings exactly like a call whose `do_run` produced no
+punch event: files whose switch is on are re-created and hold this call's text, so file = string with both sinks on,
+a file whose switch is off is untouched (all of `call_msg_streams` carries over) -/
+theorem callNoDb_streams (refreshed : Bool) (i : Inst) (c : CallCfg) (e : CallEvs) :
+    (i.callNoDb refreshed c e).disk = (i.call c { e with pevs := [] }).disk ∧
+    (i.callNoDb refreshed c e).views.outStr = (i.call c { e with pevs := [] }).views.outStr ∧
+    (i.callNoDb refreshed c e).views.logStr = (i.call c { e with pevs := [] }).views.logStr ∧
+    (i.callNoDb refreshed c e).views.errStr = (i.call c { e with pevs := [] }).views.errStr ∧
+    (i.callNoDb refreshed c e).views.errLines = (i.call c { e with pevs := [] }).views.errLines := by
+  cases refreshed <;> simp [Inst.callNoDb]
+
+/-- with the line vectors re-split after the error, the line accessors show the lines of the string -/
+theorem callNoDb_lines_refreshed (i : Inst) (c : CallCfg) (e : CallEvs) :
+    (c.out.strOn = true → (i.callNoDb true c e).views.outLines = splitLines (i.callNoDb true c e).views.outStr) ∧
+    (c.log.strOn = true → (i.callNoDb true c e).views.logLines = splitLines (i.callNoDb true c e).views.logStr) := by
+  constructor <;> intro h <;> simp [Inst.callNoDb, Inst.call, h]
+
+/-- **partial**: without the re-split (`check_database` raising the error before `do_run` can split) the output
+string holds the error line while the line accessors show nothing. Full statement (true only when `refreshed`):
+`c.out.strOn → outLines = splitLines outStr`. -/
+theorem callNoDb_lines_stale_witness :
+    let c : CallCfg := ⟨⟨true, true⟩, ⟨false, false⟩, ⟨true, true, true⟩, ⟨fun _ => false, fun _ => false⟩⟩
+    let e : CallEvs := { outs := [⟨true, "ERROR: no db\n".toList⟩], errs := [.err true true "ERROR: no db\n".toList] }
+    let r := Inst.callNoDb false {} c e
+    r.views.outStr = "ERROR: no db\n".toList ∧ r.views.outLines = [] ∧ r.disk.out = r.views.outStr ∧
+    r.disk.err = "ERROR: no db\nStopping.\n".toList ∧ r.views.errLines = ["ERROR: no db".toList] := by
+  decide
+
+/-- a failed load writes no file; error and warning views are those of the load alone; the output and log strings
+keep the earlier text and get the messages of the load appended -/
+theorem loadFail_spec (refreshed : Bool) (i : Inst) (c : CallCfg) (e : CallEvs) :
+    (i.loadFail refreshed c e).disk = i.disk ∧
+    (i.loadFail refreshed c e).views.outStr = i.views.outStr ++ (routeMsgs ⟨c.out.strOn, false⟩ e.outs).str ∧
+    (i.loadFail refreshed c e).views.errLines = splitLines (i.loadFail refreshed c e).views.errStr ∧
+    (∀ n, (i.loadFail refreshed c e).views.selLines n = [] ∧ (i.loadFail refreshed c e).views.selStr n = []) := by
+  cases refreshed <;> simp [Inst.loadFail]
+
+theorem loadFail_lines_refreshed (i : Inst) (c : CallCfg) (e : CallEvs) (h : c.out.strOn = true) :
+    (i.loadFail true c e).views.outLines = splitLines (i.loadFail true c e).views.outStr := by
+  simp [Inst.loadFail, h]
+
+/-- **partial**: without the re-split a failed load leaves the line accessors showing the previous call's lines
+although the string has grown by the error line -/
+theorem loadFail_lines_stale_witness :
+    let c : CallCfg := ⟨⟨true, false⟩, ⟨false, false⟩, ⟨true, true, false⟩, ⟨fun _ => false, fun _ => false⟩⟩
+    let i := Inst.call {} c { outs := [⟨true, "run\n".toList⟩] }
+    let r := i.loadFail false c { outs := [⟨true, "ERROR: load\n".toList⟩] }
+    r.views.outStr = "run\nERROR: load\n".toList ∧ r.views.outLines = ["run".toList] := by
+  decide
+
 end PhreeqcVerif.Route
